@@ -121,7 +121,7 @@ class Plan:
         obj_names = []
         list_names = []
         for name in sorted(vars(regs)):
-            if name in ("_R", "changed_registers"):
+            if name in ("_R", "changed_registers", "itstate_restored"):     # per-step scratch, reset before use
                 continue
             v = getattr(regs, name)
             if isinstance(v, AbstractRegister):
@@ -221,6 +221,8 @@ class Plan:
         cpu.opcode_len = 0
         cpu.executed_opcode = None
         cpu.registers.changed_registers = [False] * 16
+        if hasattr(cpu.registers, "itstate_restored"):
+            cpu.registers.itstate_restored = False
 
     def diff(self, a, b, limit=40):
         """[(location, before, after)] between two snapshots."""
